@@ -402,7 +402,7 @@ def class_e(rng):
     k = rng.choice([20, 40, 80, 200, 500, 1500])
     unit = rng.choice(['\\', '\\a', '\\"', '{', '(', '[', '-', '- ', '{ ',
                        '( ', '[ f ', 'not ', '"', '"a', '#', '*', ':', '*:',
-                       '1', '1.', '.', '0:', 'a_', '%', '^ 2 ', '+ 1 ',
+                       '1', '1.', '.', '0:', 'a_', '%', '* 2 ', '+ 1 ',
                        'begin ', 'repeat ', 'if 1 ', 'define f ', 'and "a" ',
                        'zone 1 ', 'é', '\t', '}', ')', ']', 'end '])
     head = rng.choice(['', '"', 'print "', 'print { 1 ', 'set "a', 'hue ',
